@@ -6,20 +6,24 @@ import (
 
 // Profile steers the generator towards the histories a property is about.
 type Profile struct {
-	Forks      bool     // build on arbitrary known nodes, withhold blocks (C06)
-	Viols      []string // violation kinds to draw from
-	ViolPct    int      // percentage of blocks carrying a violation
-	MaxTx      int
-	MinOps     int
-	MaxOps     int
-	Prefixes   []int // candidate prefix lengths
-	Reopen     bool
-	Staggered  bool // draw activation heights instead of "everything from height 1"
-	Signed     bool // mostly use the signed output families too
-	Halving    bool // sometimes place the chain just below a subsidy halving
-	Retarget   bool // sometimes pre-mine ~2016 blocks with a drawn spacing so that the history crosses a retarget
-	IdlePct    int
-	RedelivPct int
+	Forks     bool     // build on arbitrary known nodes, withhold blocks (C06)
+	Viols     []string // violation kinds to draw from
+	ViolPct   int      // percentage of blocks carrying a violation
+	MaxTx     int
+	MinOps    int
+	MaxOps    int
+	Prefixes  []int // candidate prefix lengths
+	Reopen    bool
+	Staggered bool // draw activation heights instead of "everything from height 1"
+	Signed    bool // mostly use the signed output families too
+	Halving   bool // sometimes place the chain just below a subsidy halving
+	// UnwindWindow: sometimes place the chain so that its tip crosses height UnwindBufLen (2560, the number of blocks
+	// whose undo data the node keeps): every block above it makes CommitBlockTxs discard the undo file that leaves the
+	// window - what a node on a real network does with every block - while reorganisations need the files inside it
+	UnwindWindow bool
+	Retarget     bool // sometimes pre-mine ~2016 blocks with a drawn spacing so that the history crosses a retarget
+	IdlePct      int
+	RedelivPct   int
 }
 
 func GenTx(t *rapid.T) TxSpec {
@@ -73,6 +77,9 @@ func GenParams(t *rapid.T, p Profile) ParamSpec {
 			k++ // every 6th halving coincides with a retarget boundary, which a short synthetic chain cannot serve
 		}
 		ps.Base = k*210000 - uint32(ps.Prefix) - uint32(rapid.IntRange(1, 12).Draw(t, "below"))
+	}
+	if p.UnwindWindow && ps.Base == 0 && ps.Prefix < 1000 && rapid.IntRange(0, 4).Draw(t, "unwind_window") == 0 {
+		ps.Base = uint32(2560 - ps.Prefix + rapid.IntRange(-8, 12).Draw(t, "unwind_delta"))
 	}
 	return ps
 }
